@@ -315,6 +315,17 @@ pub fn run(case: &Value, ctx: &Ctx) -> Outcome {
                 out.check(ok, || "cli/manypops/tiny-projection-values".into(), || json!({"stdout": String::from_utf8_lossy(&r.stdout).chars().take(200).collect::<String>()}));
             }
         }
+        "npyjunk" => {
+            let k = sc["k"].as_u64().unwrap() as usize;
+            let version = sc["version"].as_u64().unwrap() as u8;
+            // 131 bytes of dict text, "\u{3c0}" (two bytes) starting at byte k, then the newline
+            let dict = format!("{{'descr': [('{}\u{3c0}{}', '<f8')], 'fortran_order': False, 'shape': (2,), }}", "a".repeat(k.saturating_sub(13)), "b".repeat(130usize.saturating_sub(k)));
+            let bytes = crate::fam_npy::assemble(version, &format!("{dict}\n"), &[0u8; 16]);
+            for tool in [vec!["view"], vec!["stat", "-s", "sum"]] {
+                let r = cli::sfs(ctx, &tool, Some(&bytes));
+                verdict(&mut out, format!("npyjunk/v{version}/{}", tool[0]), &r, expect, sc.clone());
+            }
+        }
         "badaxes" => {
             let shape = sc["shape"].as_str().unwrap();
             let dims: Vec<usize> = shape.split('/').map(|x| x.parse().unwrap()).collect();
